@@ -1088,6 +1088,30 @@ def variant_edges(f, adt, variant, place_pred=None, cleanup=False):
     return out
 
 
+def result_edges(f, call_term):
+    """(ok_edge, err_edge) for the Result produced by a call, matched either directly
+    (`match r {Ok..,Err..}` / `if let`) or through `?` (Try::branch -> ControlFlow). None if not found."""
+    dest = call_term['dest']['l']
+    aliases = {dest}
+    changed = True
+    while changed:
+        changed = False
+        for loc, s in f.assigns():
+            rv = s['rv']
+            if rv['k'] == 'use' and 'l' in rv['op'] and not rv['op']['p'] and rv['op']['l'] in aliases and not s['lhs']['p'] and s['lhs']['l'] not in aliases:
+                aliases.add(s['lhs']['l'])
+                changed = True
+    for si in f.enum_switches('std::result::Result'):
+        if si['place']['l'] in aliases and not si['place']['p'] and not f.blocks[si['bb']]['cleanup']:
+            return f.variant_edge(si, 'Ok'), f.variant_edge(si, 'Err')
+    for loc, t in f.calls():
+        if (t.get('callee') or '') == 'std::ops::Try::branch' and t['args'] and 'l' in t['args'][0] and t['args'][0]['l'] in aliases:
+            for si in f.enum_switches('std::ops::ControlFlow'):
+                if si['place']['l'] == t['dest']['l'] and not si['place']['p']:
+                    return f.variant_edge(si, 'Continue'), f.variant_edge(si, 'Break')
+    return None
+
+
 def bool_call_switches(f, callee_pred):
     """switches whose discriminant is (a copy of) the result of a call matching
     callee_pred: list of dict(bb, call_loc, true, false)"""
